@@ -9,7 +9,7 @@ CONSTANTS
   GATEWAY = "gw"
   DEVS = {"DEV_SplitBalanceCheck", "DEV_RevertedFrameKeepsPrecompileWrites"}
   SENDERS = {"a1", "a2", "a3"}
-  TARGETS = {"a1", "a2", "a3", "c", "pre", "gw", "w", "new"}
+  TARGETS = {"a1", "a2", "a3", "c", "pre", "gw", "w", "new", "newp"}
   TYPES = {"leg", "al", "dyn"}
   PCS_N = {"at", "above"}
   PCS_X = {"below", "rich"}
